@@ -13,10 +13,10 @@ def run_jobs(prop, tier, jobs, extra_props=("SCHED", "RACE", "UAF", "POSIX", "ME
     acc = common.Acc()
     exes = {}
     for j in jobs:
-        key = (j["src"], j.get("atomic", "c11"), j.get("rwlock", "posix"))
+        key = (j["src"], j.get("atomic", "c11"), j.get("rwlock", "posix"), bool(j.get("ipc")))
         if key not in exes:
             exes[key] = build.build_mc_exe(os.path.basename(j["src"])[:-2], [j["src"]], atomic=key[1], rwlock=key[2],
-                                           extra_plain=j.get("extra_plain", ()), extra_wraps=j.get("extra_wraps", ()))
+                                           extra_plain=j.get("extra_plain", ()), extra_wraps=j.get("extra_wraps", ()), ipc=bool(j.get("ipc")))
         j["exe"] = exes[key]
         j["name"] = "%s[%s,%s] %s" % (os.path.basename(j["src"])[:-2], key[1], key[2], " ".join(map(str, j["args"])))
 
